@@ -282,18 +282,22 @@ func checkMain(args []string) int {
 			a = append(a, "-audit")
 		}
 		c := exec.Command(self, a...)
-		c.Env = append(os.Environ(), "GOMAXPROCS="+strconv.Itoa(gomax), "GORACE=halt_on_error=0 exitcode=0 log_path="+filepath.Join(outDir, name+".race"))
+		rl := filepath.Join(outDir, name+".race")
+		c.Env = append(os.Environ(), "GOMAXPROCS="+strconv.Itoa(gomax), "SIMKV_RACE_LOG="+rl, "GORACE=halt_on_error=0 exitcode=0 log_path="+rl)
 		lf := filepath.Join(outDir, name+".log")
 		lfh, _ := os.Create(lf)
 		c.Stdout = lfh
 		c.Stderr = lfh
 		return job{c, f, lf}
 	}
-	gm := 2
-	if p.Race {
-		gm = 4
+	if p.Race && nw > 8 {
+		nw = 8
 	}
 	for w := 0; w < nw; w++ {
+		gm := 2
+		if p.Race {
+			gm = []int{1, 4, 2, 8}[w%4]
+		}
 		jobs = append(jobs, mk(w, nw, false, gm))
 	}
 	// audit: the sampled indices again, in separate processes, other GOMAXPROCS, other worker count
@@ -436,7 +440,10 @@ func report(p *Prop, tier string, seed int64, st *Stats, compared, identical int
 			fmt.Printf("VIOLATION property=%s replay=%s\n", p.ID, path)
 			continue
 		}
-		msc, mv, shrunk := minimise(p, f.Scenario, f.V)
+		msc, mv, shrunk := f.Scenario, f.V, false
+		if f.V.Kind != "data-race" {
+			msc, mv, shrunk = minimise(p, f.Scenario, f.V)
+		}
 		if k := kf.match(mv); k != nil {
 			knownHit[k.ID] += len(groups[g])
 			continue
